@@ -166,18 +166,13 @@ def run_verus(gen_path, gen_text, linemap, unit_name, fn_ranges, rlimit=None, th
             dg.text = span["text"][0]["text"] if span.get("text") else ""
             li = dg.gen_line - 1
             o = linemap[li] if li < len(linemap) else None
+            dg.func = _enclosing_fn(gen_lines, li)
             k = li
-            while o is None and k > 0 and kind in ("post",):
+            fn_re = re.compile(r"\bfn\s+[A-Za-z_]\w*")
+            while o is None and k > 0 and not fn_re.search(gen_lines[k]):
                 k -= 1
                 o = linemap[k]
             dg.repo = o
-            if o is not None:
-                for qual, rel, a, b in fn_ranges:
-                    if rel == o[0] and a <= o[1] <= b:
-                        dg.func = qual
-                        break
-            if dg.func is None:
-                dg.func = _enclosing_fn(gen_lines, li)
         for s in d.get("spans", []):
             lab = s.get("label") or ""
             if "failed precondition" in lab:
